@@ -49,6 +49,7 @@ pub fn case_to(c: &Case) -> Value {
     json!({
         "command": c.input.mode.name(),
         "trailing_newline": c.input.trailing_newline,
+        "stale_output_bytes": c.input.stale_output,
         "input_files": c.input.files.iter().map(|f| f.iter().map(|(k, v)| json!([k, v])).collect::<Vec<_>>()).collect::<Vec<_>>(),
         "runs": c.runs.iter().map(|r| json!({
             "batch_size": r.batch_size, "fd_limit": r.fd_limit, "threads": r.threads,
@@ -80,5 +81,6 @@ pub fn case_from(v: &Value) -> Result<Case, String> {
         .as_array()
         .map(|a| a.iter().map(|x| x.as_bool().unwrap_or(true)).collect())
         .unwrap_or_default();
-    Ok(Case { input: Input { mode, files, trailing_newline }, runs })
+    let stale_output = v["stale_output_bytes"].as_u64().unwrap_or(0) as usize;
+    Ok(Case { input: Input { mode, files, trailing_newline, stale_output }, runs })
 }
